@@ -7,7 +7,7 @@ import torch.nn as nn
 from qv import fp, gen
 
 MODEL_KINDS = ["linear", "mlp_small", "mlp_big", "mlp_ln", "conv", "convnet", "mlp_nested", "scalar_head", "two_heads",
-               "attention", "mlp_odd"]
+               "attention", "mlp_odd", "conv_big"]
 
 
 class Block(nn.Module):
@@ -78,6 +78,8 @@ def build(kind, wd, rng=None):
         m, shape = TwoHeads(), (3, 16)
     elif kind == "mlp_nested":
         m, shape = nn.Sequential(Block(16), nn.Sequential(Block(16), nn.Linear(16, 4))), (3, 16)
+    elif kind == "conv_big":  # long enough sums (32 x 3 x 3) for kernels to differ between memory formats
+        m, shape = nn.Sequential(nn.Conv2d(32, 32, 3, padding=1), nn.ReLU(), nn.Conv2d(32, 8, 3)), (2, 32, 8, 8)
     elif kind == "attention":
         m, shape = Attention(16), (2, 5, 16)
     elif kind == "mlp_odd":  # row counts that leave every remainder modulo the packing factors (10, 7, 3 rows)
@@ -109,7 +111,7 @@ def crash_hazard(kind, wd, wq, aq):
     """True when a Linear of this model falls into a known native crash class (C07-F33/F34)."""
     feats = {"linear": [24], "mlp_small": [16, 32], "mlp_big": [160, 256], "mlp_ln": [32, 32], "conv": [],
              "convnet": [64], "mlp_nested": [16, 16, 16], "scalar_head": [16, 16], "two_heads": [16, 16, 16],
-             "attention": [16, 16, 16, 16], "mlp_odd": [48, 10, 7]}[kind]
+             "attention": [16, 16, 16, 16], "mlp_odd": [48, 10, 7], "conv_big": []}[kind]
     return any(gen.int8pack_crash_class(wd, wq, f, quantized_activations=aq is not None) for f in feats)
 
 
@@ -123,9 +125,9 @@ def qmodules(model):
     return [(n, m) for n, m in model.named_modules() if hasattr(m, "weight_qtype") and hasattr(m, "activation_qtype")]
 
 
-def record(model, probes):
+def record(model, probes, ignore_meta=()):
     """State observed at the model boundary: outputs on the probe set, every parameter/buffer/qtype fingerprint."""
-    st = {"outs": [], "state": fp.state_fp(model)}
+    st = {"outs": [], "state": fp.state_fp(model, ignore_meta)}
     with torch.no_grad():
         for x in probes:
             st["outs"].append(out_fp(model(x)))
